@@ -305,8 +305,10 @@ def check_C12(res, tier, seed):
                     res.violation('C12 correspondence K-sizes: model and implementation differ at call %d (%s): %s' % (j, tr[j][0][:80], why),
                                   {'kind': 'correspondence', 'stream': 'K-sizes', 'ops': [l for l, _ in tr[:j + 1]], 'difference': why, 'seed': seed, 'sequence': out['i'],
                                    'names': 'the correspondence stream K-sizes (coq/Crypto/OpModel.v vs libsofthsm2.so) no longer checks'}, no_input=True)
-    res.coverage.update({'evaluations': stats['calls'], 'distinct_nontrivial': len(seen),
-                         'rule': 'per sequence: AES ECB/CBC/CBC-PAD/CTR/GCM encryption of a random message in random parts (zero-length parts included) and decryption of the produced ciphertext, each call preceded by a length query and/or a too-small buffer with probability ~0.6, then a sufficient buffer; wrong-kind and second-Init calls interleaved; SHA-256 digest and HMAC with buffer sizes {NULL,0,31,32,40}; distinct = distinct (op, buffer, rv, length) sequences',
+    st_a, distinct_a, samples_a = run_kcrypto(c, res, 'C12', 'seq_asym_len', 48 if tier == 'quick' else 1500, seed, stream='K-asym-len')
+    stats['asymmetric'] = st_a
+    res.coverage.update({'evaluations': stats['calls'] + st_a['calls'], 'distinct_nontrivial': len(seen) + distinct_a,
+                         'rule': 'K-asym-len: RSA sign (PKCS#1, SHA256-PKCS#1, X.509 raw), multi-part sign, decrypt and encrypt with 1024 / 2048-bit keys whose modulus was imported with 0-2 leading zero octets: the length query reports the modulus size, one byte less is CKR_BUFFER_TOO_SMALL with the same length, exactly that size completes.  K-sizes, per sequence: AES ECB/CBC/CBC-PAD/CTR/GCM encryption of a random message in random parts (zero-length parts included) and decryption of the produced ciphertext, each call preceded by a length query and/or a too-small buffer with probability ~0.6, then a sufficient buffer; wrong-kind and second-Init calls interleaved; SHA-256 digest and HMAC with buffer sizes {NULL,0,31,32,40}; distinct = distinct (op, buffer, rv, length) sequences',
                          'samples': samples, 'k_sizes': stats, 'traces_validated_against_impl': stats['sequences']})
     finish_proof_side(c, res, 'C12')
 
@@ -371,7 +373,7 @@ def check_C10(res, tier, seed):
     res.coverage.update({'evaluations': stats['calls'], 'distinct_nontrivial': distinct,
                          'rule': 'per sequence 6-12 cases: AES ECB/CBC/CBC-PAD/CTR(16..128 counter bits)/GCM(IV 1..16 bytes, AAD, tag 4..16 bytes) single- vs multi-part (random splits incl. empty parts) vs the pure-Python reference, decryption of reference ciphertexts, GCM tampering of ciphertext/tag/IV/AAD; HMAC (MD5..SHA-512) and AES-CMAC sign/verify incl. flipped, truncated, extended, empty MACs; digests; RSA PKCS#1 v1.5 / hash-RSA / OAEP / PSS / raw against integer arithmetic with known keys; distinct = distinct call/result sequences',
                          'samples': samples, 'k_crypto': stats, 'traces_validated_against_impl': stats['sequences'],
-                         'not_covered': 'DSA, ECDSA, EdDSA signatures, X25519/448, DES3, ECDH on curves other than P-256: no independent implementation in this sandbox (DH and ECDH P-256 shared secrets are checked by integer arithmetic)'})
+                         'not_covered': 'DSA, ECDSA, EdDSA signatures, X25519/448, single DES, ECDH on curves other than P-256: no independent implementation in this sandbox (DH and ECDH P-256 shared secrets are checked by integer arithmetic)'})
     finish_proof_side(c, res, 'C10')
 
 
@@ -597,7 +599,7 @@ def check_C20(res, tier, seed):
         total_distinct += a['distinct_traces'] + b['distinct_traces']
         total_seq += a['sequences'] + b['sequences']
         for (fn, n, extra, label) in (('seq_attr', 40 if q else 1500, (), 'K-attr'), ('seq_c10', 40 if q else 1500, (), 'K-crypto'), ('seq_c13', 40 if q else 1500, (paddrv,), 'K-pad'),
-                                      ('seq_guard', 40 if q else 1500, (), 'K-guard'), ('seq_reject', 30 if q else 1000, (), 'K-reject'), ('seq_tokens', 30 if q else 1000, (), 'K-token'),
+                                      ('seq_guard', 40 if q else 1500, (), 'K-guard'), ('seq_reject', 30 if q else 1000, (), 'K-reject'), ('seq_tokens', 80 if q else 1500, (), 'K-token'),
                                       ('seq_persist', 24 if q else 600, (None,), 'K-persist')):
             s_, d_, _ = run_kcrypto(c, res, 'C20', 'cfg:%s:%s' % (backend, fn), n, seed, extra=extra, stream='%s[%s]' % (label, name), lib_override=lib,
                                     classify=botan_known if variant.startswith('botan') else None)
@@ -897,8 +899,11 @@ def main():
         res.coverage.setdefault('checker_cmd', 'n/a (check aborted)')
         res.coverage.setdefault('trusted_base', [])
         res.coverage['aborted'] = str(e)[:2000]
-        res.finish()
-        return 2
+        # a check that cannot run to its end has not shown the property: on a changed tree this is how a model that no longer
+        # builds against the regenerated code (or a driver that no longer links) shows up - reported, not swallowed
+        res.violation('%s: the check could not run to its end: %s' % (pid, str(e).strip().splitlines()[-1][:300] if str(e).strip() else type(e).__name__),
+                      {'kind': 'aborted', 'names': 'the machinery of %s (model build, extraction, driver or harness) no longer runs on this tree' % pid, 'error': traceback.format_exc()[-4000:]}, no_input=True)
+        return res.finish()
     return res.finish()
 
 
